@@ -324,6 +324,9 @@ func hash(outer, t types.Type, x value) int {
 
 // load returns the value of type T in *addr.
 func load(T types.Type, addr *value) value {
+	if isPoison(*addr) {
+		return *addr
+	}
 	switch T := T.Underlying().(type) {
 	case *types.Struct:
 		v := (*addr).(structure)
@@ -346,6 +349,10 @@ func load(T types.Type, addr *value) value {
 
 // store stores value v of type T into *addr.
 func store(T types.Type, addr *value, v value) {
+	if isPoison(v) || isPoison(*addr) {
+		*addr = v
+		return
+	}
 	switch T := T.Underlying().(type) {
 	case *types.Struct:
 		lhs := (*addr).(structure)
